@@ -70,6 +70,26 @@ fn to_rot_f64(d: &mut Draw) -> Outcome {
     let eq = Matrix3::from(q).rm().max_abs_diff(&want);
     ensure!(eq <= tol, "quaternion-xyz-f64", "Quaternion::from(Euler) differs from Rx Ry Rz by {:e}", eq);
     ensure!((q.magnitude() - 1.0).abs() <= 1e-14, "quaternion-unit-f64", "|Quaternion::from(Euler)| = {}", q.magnitude());
+    // ... and each representation equals the product of *its own* three axis constructors (the statement's right-hand side
+    // is written with the library's from_angle_x/y/z, not with a reference's)
+    {
+        use cgmath::Rotation3;
+        let (p3, p4, pb, pq): (Matrix3<f64>, Matrix4<f64>, Basis3<f64>, Quaternion<f64>) = if use_deg {
+            let (ax, ay, az) = (Deg(x * k), Deg(y * k), Deg(z * k));
+            (Matrix3::from_angle_x(ax) * Matrix3::from_angle_y(ay) * Matrix3::from_angle_z(az), Matrix4::from_angle_x(ax) * Matrix4::from_angle_y(ay) * Matrix4::from_angle_z(az),
+             <Basis3<f64> as Rotation3>::from_angle_x(ax) * <Basis3<f64> as Rotation3>::from_angle_y(ay) * <Basis3<f64> as Rotation3>::from_angle_z(az),
+             <Quaternion<f64> as Rotation3>::from_angle_x(ax) * <Quaternion<f64> as Rotation3>::from_angle_y(ay) * <Quaternion<f64> as Rotation3>::from_angle_z(az))
+        } else {
+            let (ax, ay, az) = (Rad(x), Rad(y), Rad(z));
+            (Matrix3::from_angle_x(ax) * Matrix3::from_angle_y(ay) * Matrix3::from_angle_z(az), Matrix4::from_angle_x(ax) * Matrix4::from_angle_y(ay) * Matrix4::from_angle_z(az),
+             <Basis3<f64> as Rotation3>::from_angle_x(ax) * <Basis3<f64> as Rotation3>::from_angle_y(ay) * <Basis3<f64> as Rotation3>::from_angle_z(az),
+             <Quaternion<f64> as Rotation3>::from_angle_x(ax) * <Quaternion<f64> as Rotation3>::from_angle_y(ay) * <Quaternion<f64> as Rotation3>::from_angle_z(az))
+        };
+        ensure!(m3.rm().max_abs_diff(&p3.rm()) <= 1e-13, "matrix3-own-product-f64", "Matrix3::from(Euler) differs from Matrix3::from_angle_x * from_angle_y * from_angle_z by {:e}", m3.rm().max_abs_diff(&p3.rm()));
+        ensure!(m4.rm().max_abs_diff(&p4.rm()) <= 1e-13, "matrix4-own-product-f64", "Matrix4::from(Euler) differs from Matrix4::from_angle_x * from_angle_y * from_angle_z by {:e}", m4.rm().max_abs_diff(&p4.rm()));
+        ensure!(Matrix3::from(b3).rm().max_abs_diff(&Matrix3::from(pb).rm()) <= 1e-13, "basis3-own-product-f64", "Basis3::from(Euler) differs from the product of Basis3's axis constructors");
+        ensure!(Matrix3::from(q).rm().max_abs_diff(&Matrix3::from(pq).rm()) <= 1e-13, "quaternion-own-product-f64", "Quaternion::from(Euler) differs from the product of Quaternion's axis constructors (as rotations)");
+    }
     // "for all angles": any finite angle, however huge (up to MAX, in either unit). Its sine and cosine cannot be predicted
     // by a reference to any useful accuracy, but the clause itself needs none: every representation built from the triple must
     // be finite, orthonormal and equal to the library's own from_angle_x * from_angle_y * from_angle_z of the same three values
